@@ -3,7 +3,7 @@
 import sys, os
 sys.path.insert(0, os.path.dirname(os.path.abspath(__file__)))
 import vlib
-ok, out = vlib.translate(); print(out)
+ok, out, _failed = vlib.translate(); print(out)
 ok, out = vlib.coq_make(sys.argv[1:])
 print(out[-3000:])
 sys.exit(0 if ok else 1)
